@@ -14,6 +14,7 @@ pub mod kv;
 pub mod rng;
 pub mod sim;
 pub mod nodes;
+pub mod certw;
 pub mod creds;
 pub mod wire;
 pub mod e1;
@@ -99,6 +100,11 @@ impl Report {
             count: 0,
         });
         e.count += 1;
+    }
+
+    /// (signature, description) of every class
+    pub fn classes(&self) -> Vec<(String, String)> {
+        self.violations.values().map(|v| (v.signature.clone(), v.what.clone())).collect()
     }
 
     pub fn merge(&mut self, other: Report) {
